@@ -52,6 +52,25 @@ REPORT_FAULTS = ["enoent-parent", "eisdir", "open-eacces", "open-erofs", "open-e
 SARIF_SEMGREP = {"version": "2.1.0", "runs": [{"tool": {"driver": {"name": "Semgrep OSS"}}, "results": []}]}
 SARIF_CODEQL = {"version": "2.1.0", "runs": [{"tool": {"driver": {"name": "CodeQL"}}, "results": []}]}
 
+SARIF_MERGED = {"version": "2.1.0", "runs": [SARIF_SEMGREP["runs"][0], SARIF_CODEQL["runs"][0]]}  # one export holding both tools
+SARIF_SEMGREP_B = {"version": "2.1.0", "runs": [{"tool": {"driver": {"name": "Semgrep OSS"}}, "results": [], "properties": {"n": 2}}]}
+DUP_SARIF = [[SARIF_SEMGREP, SARIF_SEMGREP], [SARIF_CODEQL, SARIF_CODEQL], [SARIF_SEMGREP, SARIF_SEMGREP_B], [SARIF_MERGED, SARIF_SEMGREP],
+             [SARIF_MERGED, SARIF_CODEQL], [SARIF_SEMGREP, SARIF_MERGED], [SARIF_CODEQL, SARIF_MERGED], [SARIF_CODEQL, SARIF_SEMGREP, SARIF_CODEQL]]
+SONAR_EMPTY = {"issues": [], "hotspots": []}
+DD_EMPTY = {"results": []}
+# (option, file names) groups; names starting with "missing" are not created
+MISSING_RESULT = [[(o, ["missing.json"])] for o in RESULT_OPTS] + [
+    [("--sarif", ["ok.sarif", "missing.sarif"])],
+    [("--sonar-issues-json", ["sonar_a.json", "missing.json"])],
+    [("--sonar-hotspots-json", ["missing.json", "sonar_h.json"])],
+    [("--defectdojo-findings-json", ["dd_a.json", "missing.json"])],
+    [("--sonar-issues-json", ["sonar_a.json"]), ("--sonar-hotspots-json", ["missing.json"])],
+    [("--sonar-issues-json", ["missing.json"]), ("--sonar-hotspots-json", ["sonar_h.json"])],
+    [("--sonar-issues-json", ["sonar_a.json", "sonar_b.json"]), ("--sonar-hotspots-json", ["sonar_h.json", "missing_h.json"])],
+    [("--sonar-hotspots-json", ["sonar_h.json"]), ("--defectdojo-findings-json", ["missing.json"])],
+    [("--defectdojo-findings-json", ["dd_a.json"]), ("--sarif", ["missing.sarif"])],
+]
+
 FILES = {
     "pkg/a.py": "def f(x=[]):\n    return f'hello'\n",
     "pkg/b.py": "import os\nprint(f'abc')\n",
@@ -77,11 +96,17 @@ def make_exp(conds, rng):
         elif c == "missing-dir":
             directory = "<S>/does-not-exist"
         elif c == "missing-result-file":
-            argv_pre += [RESULT_OPTS[var], "<R>/missing.json"]
+            for opt, names in MISSING_RESULT[var]:
+                for n in names:
+                    if not n.startswith("missing"):
+                        exp["results"][n] = enc(json.dumps(SARIF_CODEQL if n.endswith(".sarif") else SONAR_EMPTY if n.startswith("sonar") else DD_EMPTY).encode())
+                argv_pre += [opt, ",".join("<R>/" + n for n in names)]
         elif c == "dup-sarif-tool":
-            exp["results"]["s1.sarif"] = enc(json.dumps(SARIF_SEMGREP if var == 0 else SARIF_CODEQL).encode())
-            exp["results"]["s2.sarif"] = exp["results"]["s1.sarif"]
-            argv_pre += ["--sarif", "<R>/s1.sarif,<R>/s2.sarif"]
+            names = []
+            for j, doc in enumerate(DUP_SARIF[var]):
+                exp["results"][f"s{j + 1}.sarif"] = enc(json.dumps(doc).encode())
+                names.append(f"<R>/s{j + 1}.sarif")
+            argv_pre += ["--sarif", ",".join(names)]
         elif c == "report-unwritable":
             k = REPORT_FAULTS[var]
             if k == "enoent-parent":
@@ -146,8 +171,8 @@ class C20(Check):
         out += [("invalid-args", i) for i in range(len(INVALID_ARGS))]
         out += [("ai-env", i) for i in range(len(AI_ENVS))]
         out += [("missing-dir", 0)]
-        out += [("missing-result-file", i) for i in range(len(RESULT_OPTS))]
-        out += [("dup-sarif-tool", 0), ("dup-sarif-tool", 1)]
+        out += [("missing-result-file", i) for i in range(len(MISSING_RESULT))]
+        out += [("dup-sarif-tool", i) for i in range(len(DUP_SARIF))]
         out += [("report-unwritable", i) for i in range(len(REPORT_FAULTS))]
         return out
 
